@@ -235,6 +235,8 @@ type Engine struct {
 	CheckUtf8 func(data []byte) bool
 
 	shutdown bool
+	// serializes handing over an accepted connection with Stop/Shutdown.
+	acceptMux sync.RWMutex
 
 	listenerMux *lmux.ListenerMux
 	listeners   []net.Listener
@@ -336,12 +338,19 @@ func (e *Engine) listen(ln net.Listener, tlsConfig *tls.Config, addConn func(*Co
 		}()
 		for !e.shutdown {
 			conn, err := ln.Accept()
-			if err == nil && !e.shutdown {
-				addConn(&Conn{Conn: conn}, tlsConfig, decrease)
-			} else if err == nil {
-				// accepted while the engine is stopping: nobody will serve it.
-				_ = conn.Close()
-				decrease()
+			if err == nil {
+				// Once Stop has set the shutdown flag no connection is
+				// handed over any more: Stop closes the existing ones and
+				// would miss a connection that is added behind its back.
+				e.acceptMux.RLock()
+				if !e.shutdown {
+					addConn(&Conn{Conn: conn}, tlsConfig, decrease)
+				} else {
+					// accepted while the engine is stopping: nobody will serve it.
+					_ = conn.Close()
+					decrease()
+				}
+				e.acceptMux.RUnlock()
 			} else {
 				var ne net.Error
 				if ok := errors.As(err, &ne); ok && ne.Timeout() {
@@ -530,7 +539,9 @@ func (e *Engine) Start() error {
 //
 //go:norace
 func (e *Engine) Stop() {
+	e.acceptMux.Lock()
 	e.shutdown = true
+	e.acceptMux.Unlock()
 
 	if e.Cancel != nil {
 		e.Cancel()
@@ -548,7 +559,9 @@ func (e *Engine) Stop() {
 //
 //go:norace
 func (e *Engine) Shutdown(ctx context.Context) error {
+	e.acceptMux.Lock()
 	e.shutdown = true
+	e.acceptMux.Unlock()
 	e.stopListeners()
 
 	if e.Cancel != nil {
